@@ -156,11 +156,8 @@ func (t *typedName) child(stripCount int) px.TypedName {
 		authority: t.authority,
 		name:      name}
 
-	if t.canonical != `` {
-		pfxLen := len(t.authority) + len(t.namespace) + 2
-		diff := len(t.name) - len(name)
-		tn.canonical = t.canonical[:pfxLen] + t.canonical[pfxLen+diff:]
-	}
+	// The map key of the derived name is computed on demand. It cannot be cut out of the receiver's key: lower casing
+	// does not preserve the length of a string in UTF-8
 	if t.parts != nil {
 		tn.parts = t.parts[stripCount:]
 	}
@@ -177,10 +174,6 @@ func (t *typedName) Parent() px.TypedName {
 		authority: t.authority,
 		name:      t.name[:lx]}
 
-	if t.canonical != `` {
-		pfxLen := len(t.authority) + len(t.namespace) + 2
-		tn.canonical = t.canonical[:pfxLen+lx]
-	}
 	if t.parts != nil {
 		tn.parts = t.parts[:len(t.parts)-1]
 	}
